@@ -5,13 +5,13 @@ open GB GB.Proto
 
 def parseLocks (s : String) : List String := if s == "-" then [] else s.splitOn ","
 
-/-- `pair <field> <fnA> <wA> <locksA> <freshA> <fnB> <wB> <locksB> <freshB> => present|absent`
+/-- `pair <field> <fnA> <wA> <locksA> <ownA> <freshA> <fnB> <wB> <locksB> <ownB> <freshB> => present|absent`
     One conflicting-candidate pair of the regenerated access table; judged with the same
     `conflict` / `protectedPair` definitions the theorem `C18_lockset_partial` is about. -/
 def handle : Handler
-  | ["pair", f, fa, wa, la, fra, fb, wb, lb, frb], [out] =>
-    let a : Acc := ⟨f, fa, wa == "1", parseLocks la, fra == "1"⟩
-    let b : Acc := ⟨f, fb, wb == "1", parseLocks lb, frb == "1"⟩
+  | ["pair", f, fa, wa, la, oa, fra, fb, wb, lb, ob, frb], [out] =>
+    let a : Acc := ⟨f, fa, wa == "1", parseLocks la, parseLocks oa, fra == "1"⟩
+    let b : Acc := ⟨f, fb, wb == "1", parseLocks lb, parseLocks ob, frb == "1"⟩
     if out == "absent" then "OK b=absent"   -- replayed pair no longer exists in the current table
     else if !conflict a b then "OK b=noconflict"
     else if commonLock a b then "OK nt b=mutex"
